@@ -314,6 +314,12 @@ def sweep_c08(tier, seed):
         add(run_triplet(pre, post, torch.zeros(2, 3, dtype=torch.long), 0, 1.0, -0.6, 0.4, 0.5, 0.3, delayed=False))
         add(run_mstdp(pre, post, [0.7, -1.2, 0.0, 2.0], 0.5, 1.0, 0.4, -0.3, 10.0, 8.0, per_sample=False))
         add(run_mstdp(pre, post, [0.7, -1.2, 0.0, 2.0], 0.5, 1.0, 0.4, -0.3, 10.0, 8.0, per_sample=True))
+        # per-sample rewards that leave one of the two groups (signal >= 0 / < 0) empty, in every sign mode
+        for lp, lq in ((0.4, 0.3), (-0.4, -0.3), (0.4, -0.3), (-0.4, 0.3)):
+            for sig in ([-0.7, -1.2, -0.4, -2.0], [0.7, 1.2, 0.0, 2.0]):
+                cases += 1
+                f = run_mstdp(pre, post, sig, 0.5, 1.0, lp, lq, 10.0, 8.0, per_sample=True)
+                add(None if f is None else dict(f, what=f["what"] + "/one_sided_batch"))
         # reward-modulated rule with a unit reward is the pair rule: exercises its delayed / delay-frozen modes
         for delayed in (True, False):
             cases += 1
@@ -401,6 +407,8 @@ def sweep_c18(tier, seed):
 def sweep_c09(tier, seed):
     f8, n8 = sweep_c08(tier, seed)
     failures = [x for x in f8 if x["what"].startswith("C09/")]
+    # "the parts net to the signed rule": a reward-modulated step whose applied change differs from the rule is a C09 failure too
+    failures += [dict(x, what="C09/net_is_signed_rule/" + x["what"].split("/", 1)[1]) for x in f8 if x["what"].startswith("C08/MSTDP/signal_scaled_sum")]
     cases = n8
     for param in ("weight", "bias", "delay"):
         for above in (True, False):
